@@ -1247,6 +1247,16 @@ impl HasQName for XmlDeclarationAttDef {
     }
 }
 
+impl fmt::Display for XmlDeclarationAttDef {
+    fn fmt(&self, f: &mut fmt::Formatter<'_>) -> Result<(), fmt::Error> {
+        if let Some(prefix) = self.prefix.as_deref() {
+            write!(f, "{}:", prefix)?;
+        }
+
+        write!(f, "{} {} {}", self.local_name.as_str(), self.ty, self.value)
+    }
+}
+
 impl XmlDeclarationAttDef {
     fn new(
         value: &parser::DeclarationAttDef<'_>,
@@ -1278,6 +1288,27 @@ pub enum XmlDeclarationAttDefault {
     Required,
     Implied,
     Value(Option<String>, Vec<XmlAttributeValue>),
+}
+
+impl fmt::Display for XmlDeclarationAttDefault {
+    fn fmt(&self, f: &mut fmt::Formatter<'_>) -> Result<(), fmt::Error> {
+        match self {
+            XmlDeclarationAttDefault::Required => write!(f, "#REQUIRED"),
+            XmlDeclarationAttDefault::Implied => write!(f, "#IMPLIED"),
+            XmlDeclarationAttDefault::Value(fixed, values) => {
+                if fixed.is_some() {
+                    write!(f, "#FIXED ")?;
+                }
+
+                let mut value = String::new();
+                for v in values {
+                    value.push_str(&format!("{}", v));
+                }
+
+                write!(f, "{}", escape(value.as_str()))
+            }
+        }
+    }
 }
 
 impl XmlDeclarationAttDefault {
@@ -1314,8 +1345,9 @@ pub struct XmlDeclarationAttList {
 }
 
 impl IndentedDisplay for XmlDeclarationAttList {
-    fn indented(&self, _: usize, f: &mut impl io::Write) -> io::Result<()> {
-        write!(f, "{}", self)
+    fn indented(&self, indent: usize, f: &mut impl io::Write) -> io::Result<()> {
+        let space = " ".repeat(indent);
+        write!(f, "{}{}", space, self)
     }
 }
 
@@ -1352,9 +1384,18 @@ impl PartialEq<XmlDeclarationAttList> for XmlDeclarationAttList {
 }
 
 impl fmt::Display for XmlDeclarationAttList {
-    fn fmt(&self, _f: &mut fmt::Formatter<'_>) -> Result<(), fmt::Error> {
-        // TODO:
-        Ok(())
+    fn fmt(&self, f: &mut fmt::Formatter<'_>) -> Result<(), fmt::Error> {
+        write!(f, "<!ATTLIST ")?;
+        if let Some(prefix) = self.prefix.as_deref() {
+            write!(f, "{}:", prefix)?;
+        }
+        write!(f, "{}", self.local_name.as_str())?;
+
+        for att in self.atts.as_slice() {
+            write!(f, " {}", att)?;
+        }
+
+        write!(f, ">")
     }
 }
 
@@ -1398,6 +1439,23 @@ pub enum XmlDeclarationAttType {
     NmTokens,
     Notation(Vec<String>),
     Enumeration(Vec<String>),
+}
+
+impl fmt::Display for XmlDeclarationAttType {
+    fn fmt(&self, f: &mut fmt::Formatter<'_>) -> Result<(), fmt::Error> {
+        match self {
+            XmlDeclarationAttType::CData => write!(f, "CDATA"),
+            XmlDeclarationAttType::Entities => write!(f, "ENTITIES"),
+            XmlDeclarationAttType::Entity => write!(f, "ENTITY"),
+            XmlDeclarationAttType::Id => write!(f, "ID"),
+            XmlDeclarationAttType::IdRef => write!(f, "IDREF"),
+            XmlDeclarationAttType::IdRefs => write!(f, "IDREFS"),
+            XmlDeclarationAttType::NmToken => write!(f, "NMTOKEN"),
+            XmlDeclarationAttType::NmTokens => write!(f, "NMTOKENS"),
+            XmlDeclarationAttType::Notation(v) => write!(f, "NOTATION ({})", v.join("|")),
+            XmlDeclarationAttType::Enumeration(v) => write!(f, "({})", v.join("|")),
+        }
+    }
 }
 
 impl From<&parser::DeclarationAttType<'_>> for XmlDeclarationAttType {
